@@ -520,7 +520,8 @@ void container_case(std::size_t n, u64 seed, int draws)
   std::uniform_int_distribution<size_type> sd2(0, hi);
   bool first = false, last = false, reported = false;
   UC &w = uc.get_unsafe();
-  for (int i = 0; i < draws && !reported; ++i)
+  auto const draw_phase = [&](int const from, int const to, std::string const &phase) {
+  for (int i = from; i < to && !reported; ++i)
   {
     typename UC::result_type r = w(fg);
     size_type const expect = sd2(sg);
@@ -536,20 +537,34 @@ void container_case(std::size_t n, u64 seed, int draws)
     if (!member)
     {
       reported = true;
-      fail("random::wrapper::uniform_container|not-an-element|size " + std::string(n == 1 ? "1" : ">=2"), "draw " + str(i) + " is not an element of the container");
+      fail("random::wrapper::uniform_container|not-an-element" + phase + "|size " + std::string(n == 1 ? "1" : ">=2"), "draw " + str(i) + " is not an element of the container");
     }
     else if (at != expect)
     {
       reported = true;
-      fail("random::wrapper::uniform_container|sequence-differs|size " + std::string(n == 1 ? "1" : ">=2"),
+      fail("random::wrapper::uniform_container|sequence-differs" + phase + "|size " + std::string(n == 1 ? "1" : ">=2"),
            "draw " + str(i) + " is element " + str(at) + ", std::uniform_int_distribution<size_type>(0,size-1) selects " + str(expect));
     }
     first = first || at == 0;
     last = last || at == hi;
   }
+  };
+  draw_phase(0, draws, "");
   if (ends && !reported && !(first && last))
     fail("random::wrapper::uniform_container|end-not-reached|size " + std::string(n == 1 ? "1" : ">=2"),
          std::string(first ? "last" : "first") + " element never drawn in " + str(draws) + " draws");
+  // the wrapper is built from a reference to the container, not from a snapshot of its storage:
+  // after the container's contents have been replaced by other contents of the SAME size (the
+  // storage moves: move assignment, then a reserve for vectors), draws are elements of the
+  // container as it is now and continue the same index sequence
+  if (!reported)
+  {
+    C fresh = make_container<C>(n + 1);
+    fresh.erase(fresh.begin()); // same size, other values, other storage
+    cont = std::move(fresh);
+    if constexpr (requires { cont.reserve(1); }) cont.reserve(cont.capacity() * 2 + 64);
+    draw_phase(draws, draws + 64, "|after-storage-moved");
+  }
   if constexpr (!Const)
   {
     // the reference is a reference to the element: writing through it changes the container
